@@ -709,11 +709,11 @@ class Lexer(object):
     def t_STRING(self, token):
         return token
 
-    # XXX: <ZWNJ> <ZWJ> ?
     identifier_start = r'(?:' + r'[a-zA-Z_$]' + r'|' + LETTER + r')+'
     identifier_part = (
-        r'(?:' + COMBINING_MARK + r'|' + r'[0-9a-zA-Z_$]' + r'|' + DIGIT +
-        r'|' + CONNECTOR_PUNCTUATION + r')*'
+        r'(?:' + COMBINING_MARK + r'|' + r'[0-9a-zA-Z_$]' + r'|' + LETTER +
+        r'|' + DIGIT + r'|' + CONNECTOR_PUNCTUATION + r'|' +
+        r'[\u200c\u200d]' + r')*'             # <ZWNJ> <ZWJ>
     )
     identifier = identifier_start + identifier_part
 
